@@ -17,6 +17,18 @@ from .adapter import Item
 from .adapter import adapter_map
 
 
+def is_default_value(default, value):
+    from .._unmanaged import Unmanaged
+    from .._unmanaged import is_unmanaged
+
+    # unmanaged values like Is(...) or a nested snapshot() are controlled by the user
+    # and should not be compared with the default value (the comparison would be recorded by the snapshot)
+    if isinstance(value, Unmanaged) or is_unmanaged(value):
+        return False
+
+    return default == value
+
+
 def get_adapter_for_type(value_type):
     subclasses = GenericCallAdapter.__subclasses__()
     options = [cls for cls in subclasses if cls.check_type(value_type)]
@@ -256,12 +268,13 @@ class DataclassAdapter(GenericCallAdapter):
                 field_value = getattr(value, field.name)
                 is_default = False
 
-                if field.default != MISSING and field.default == field_value:
+                if field.default != MISSING and is_default_value(
+                    field.default, field_value
+                ):
                     is_default = True
 
-                if (
-                    field.default_factory != MISSING
-                    and field.default_factory() == field_value
+                if field.default_factory != MISSING and is_default_value(
+                    field.default_factory(), field_value
                 ):
                     is_default = True
 
@@ -311,7 +324,7 @@ else:
                             )
                         )
 
-                        if default_value == field_value:
+                        if is_default_value(default_value, field_value):
 
                             is_default = True
 
@@ -364,15 +377,13 @@ else:
                     field_value = getattr(value, name)
                     is_default = False
 
-                    if (
-                        field.default is not PydanticUndefined
-                        and field.default == field_value
+                    if field.default is not PydanticUndefined and is_default_value(
+                        field.default, field_value
                     ):
                         is_default = True
 
-                    if (
-                        field.default_factory is not None
-                        and field.default_factory() == field_value
+                    if field.default_factory is not None and is_default_value(
+                        field.default_factory(), field_value
                     ):
                         is_default = True
 
